@@ -219,10 +219,13 @@ MANIFEST = {
                  "calls for an identifier are exactly the consecutive pairs between its first and last epoch number, each once; "
                  "C14_monotone, C14_at_most_one_per_block, C14_start_is_block, plus lemmas for equal / decreasing times, long "
                  "stalls and non-positive durations, and two _refuted theorems showing that well-formedness of imported "
-                 "counters is necessary. The model is run against the real BeginBlocker (direct and through the whole "
+                 "counters is necessary; with a failing hook receiver (C14_hook_panic_aborts_block, C14_committed_block_is_complete, "
+                 "C14_every_block_of_every_history_with_failing_hook): a panicking hook commits nothing and every committed advance "
+                 "delivered AfterEpochEnd(n) once to ALL receivers before BeforeEpochStart(n+1). The model is run against the real BeginBlocker (direct and through the whole "
                  "application BeginBlock) with recording hooks on generated time sequences, and the proved-sound checker of the "
                  "per-block property is evaluated on the implementation traces; hook registration in app/ is re-extracted on "
-                 "every run (Gen/C14Facts.v) and each registered hook is proved to see every call once, in order."),
+                 "every run (Gen/C14Facts.v) together with the absence of recover in x/epochs and the shape of the MultiEpochHooks "
+                 "loops, and each registered hook is proved to see every call once, in order."),
         "design_ref": "DESIGN.md §5 C14",
     },
     "level_note": ("Hypotheses: imported epoch infos are well formed (not counting => epoch 0; counting => StartTime <= "
